@@ -28,9 +28,17 @@ fn rand_piece(rng: &mut Rng) -> String {
     let mut s = String::new();
     let dense = rng.chance(1, 2);
     for _ in 0..n {
-        match rng.below(if dense { 3 } else { 8 }) {
+        match rng.below(if dense { 4 } else { 9 }) {
             0 => s.push(char::from_u32(rng.below(64) as u32).unwrap()),
             1 => s.push(*rng.pick(EDGE_CHARS)),
+            3 => {
+                // a character above U+00FF whose low byte (or low 6 bits) is the code of a possible set
+                // member: U+2026 -> '&', U+4E0A -> LF, U+0100 / U+1F600 -> NUL, ... (a scanner that
+                // truncates scalar values would take it for a member)
+                let hi = *rng.pick(&[0x1u32, 0x20, 0x21, 0x4e, 0xff, 0x100, 0x1f6, 0x10ff]);
+                let c = char::from_u32((hi << 8) | rng.below(64) as u32).unwrap_or('\u{2026}');
+                s.push(c);
+            },
             _ => s.push((b'a' + rng.below(26) as u8) as char),
         }
     }
